@@ -1,7 +1,7 @@
 """random abstract PROGRAMS for the SPECIFICATION side of the program round trip
 (lean/GoldModel/Props/C06Prog.lean): declarations (class, const, field, proc, func with parameters) and
 statements (assignment, expression statement, return, exit/break/continue, local variable, if/elseif/else,
-while, loop, for with optional step, foreach, repeat/until) nested to a random depth are printed to words; the prefix form with
+while, loop, for with optional step, foreach, repeat/until, switch/when/else) nested to a random depth are printed to words; the prefix form with
 word indices (`#i`) is later filled with the implementation's own tokens and handed to the Lean spec
 (`progspec` driver mode), whose `Prog.tree` is compared with the tree the implementation built.
 Expressions come from `exspec` (the prefix form of the `exspec` mode), so the tie follows `Ex` as it grows."""
@@ -59,7 +59,7 @@ class Gen:
         self.tag("]")
 
     def stmt(self, depth):
-        c = self.r.below(16 if depth > 0 else 9)
+        c = self.r.below(17 if depth > 0 else 9)
         if depth > 0 and c >= 7:
             c = c if c >= 9 else self.r.below(9)
         if c <= 2:
@@ -120,6 +120,27 @@ class Gen:
         elif c == 14:
             self.count("repeat")
             self.tag("SU"); self.w("repeat"); self.stmts(depth - 1); self.w("until"); self.ex()
+        elif c == 16:
+            self.count("switch")
+            self.tag("SZ"); self.w("switch"); self.ex(); self.tag("{")
+            for _ in range(self.r.below(4)):
+                self.count("when")
+                self.tag("W"); self.w("when")
+                if self.r.chance(1, 4):
+                    self.tag("VR"); self.w(self.r.choice(TLITS)); self.w("to"); self.w(self.r.choice(TLITS))
+                else:
+                    self.tag("VL"); self.w(self.r.choice(TLITS + NAMES))
+                    for _ in range(self.r.below(3)):
+                        self.tag(","); self.w(","); self.w(self.r.choice(TLITS + NAMES))
+                    self.tag(".")
+                self.stmts(depth - 1); self.w("endwhen")
+            self.tag("}")
+            if self.r.chance(1, 2):
+                self.count("switch-else")
+                self.tag("+"); self.w("else"); self.stmts(depth - 1)
+            else:
+                self.tag("-"); self.tag("["); self.tag("]")
+            self.w("endswitch")
         else:
             self.count("for")
             self.tag("SF"); self.w("for"); self.w(self.r.choice(NAMES)); self.w("="); self.ex()
